@@ -1,5 +1,6 @@
 import Pcore.Proofs.TlsDefs
 import Pcore.Proofs.TlsReach
+import Pcore.Proofs.TlsLoaders
 import Pcore.Proofs.Gid
 import Pcore.Model.TlsFacts
 /-!
@@ -37,17 +38,35 @@ Full statement / proved / missing
   (definitions): only the running body's own defining loader, the defining loaders of goroutines that were waiting, and
   fresh loaders are written; a `Load` through a chain of untouched loaders answers as before.               **proved**
   `C14_fork_isolated` = `C14_fork_isolated_full` (context objects ∧ loader entries).                        **proved**
-  Not proved as an invariant (only used as a hypothesis of `C14_loads_unaffected`, exercised by correspondence): that no
-  loader on a suspended parent's chain is the defining loader of a waiting goroutine — true because `Fork` allocates that
-  loader fresh (`C14_fork_view`).
+  `C14_linv_init`, `C14_linv_exec`, `C14_linv_do`, `C14_parent_loads_unaffected` — the loader-chain invariant `LInv` (a
+  waiting goroutine's defining loader is fresh: on no other context's chain) holds throughout, hence what a parent or any
+  non-waiting context can `Load` is exactly the same before and after a child ran.                         **proved**
 * `C14_released`, `C14_released_goroutine` — after the op (Do on a fresh goroutine, every forked goroutine joined) no
   goroutine-local table is left; a forked goroutine's table is gone when it ends.                           **proved**
 * witnesses on `Ver.before` (the original code): context left set and table never released after `Do`; a nested `Do`
   replaces the caller's current context; `Fork` copies the parent's variables when the child starts.
-* missing / trusted (DESIGN §5): that `getg()` yields a unique stable id per goroutine (the model hands out fresh ids);
-  Go's scheduler and memory model — the interleavings covered are the nested ones (a goroutine is suspended at a leaf
-  operation while another runs from start to end), which is what the harness realises with gates; free-running
-  goroutines are exercised on the implementation only (`@free`).
+* ARBITRARY INTERLEAVINGS — `Model/TlsSmall.lean` is a small-step semantics (per-goroutine continuation + shared heaps; any
+  goroutine that has not ended may take the next micro-step); `Reachable p c` = reached by any sequence of micro-steps.  As
+  invariants of `Reachable` (`Proofs/TlsSmall.lean: stepG_spec`, `Proofs/TlsReach.lean: cinv_step, reachable_inv`):
+  `C14s_current` (every observation), `C14s_current_state` (at every point, also mid-unwinding, the current context is the
+  one the next body frame was handed — this is current AND restore), `C14s_confined`, `C14s_tls_local` (a step never
+  touches another goroutine's table), `C14s_step_frame` / `C14s_other_goroutines_contexts` / `C14s_waiting_child_view` /
+  `C14s_fork_view` (fork isolation of context objects per step: only contexts installed for the stepping goroutine are
+  written; a waiting child keeps the view of the Fork call), `C14s_released_goroutine`, `C14s_released`.     **proved**
+  `C14s_defs_step`: a micro-step writes only the defining loader of the stepping goroutine's current body context.  **proved**
+  Remaining for the small-step model: the loader-chain exclusivity invariant `LInv` over `Reachable` (needed to conclude from
+  `C14s_defs_step` that a parent's `Load` answers do not depend on its children; proved for the big-step model:
+  `C14_parent_loads_unaffected`), and a refinement theorem big-step ⊆ small-step (both are tied to the code by the
+  correspondence run instead: `progs` = big-step, `progi` = small-step under leaf-level interleaving).
+  Atomicity of a micro-step: one call into pcore up to where it calls back the actor, or one deferred function.
+* SECOND TIE — `C14_facts_now` + `C14_facts_*`: the shape table regenerated from px/context.go, internal/context.go,
+  internal/runtime.go, threadlocal/gid.go on every run (family `ctxfacts`) equals the shape the model mirrors; it selects
+  the model variant the driver runs (`implVer`, `C14_impl_ver`, `C14_impl_*`).
+* GOROUTINE IDS — `C14_getg`, `C14_getg_injective`, `C14_getg_iff`: the digit loop of `threadlocal.getg()` returns the id the
+  runtime printed, for all ids below 2^63 (sharp), so distinct goroutines get distinct table keys (`Model/Gid.lean`).
+* missing / trusted (DESIGN §5): that `runtime.Stack` prints "goroutine N [" with N the goroutine's unique id and that ids are
+  not reused while a table exists; Go's memory model (the lock-protected `tls` map is assumed linearizable; a micro-step is
+  atomic); free-running goroutines are exercised on the implementation only (`@free`).
 -/
 namespace Pcore.Tls
 
@@ -237,6 +256,51 @@ theorem C14_loads_unaffected (d d' : LoaderId → List (String × Bool)) (chain 
     simp only [loadEntry]
     rw [ih (fun l' hl' => h l' (List.mem_cons_of_mem _ hl')), h l (List.mem_cons_self ..)]
 
+/-! ## the loader-chain invariant (closes the hypothesis of `C14_loads_unaffected`) -/
+
+/-- `LInv`: every waiting goroutine's defining loader is allocated, is not the shared environment loader, and occurs in the
+    chain of no other context.  It holds initially … -/
+theorem C14_linv_init (sched : List Nat) : LInv { sched := sched } :=
+  ⟨Nat.le_refl _, fun i hi => by simp at hi, fun t ht => by simp at ht⟩
+
+/-- … `Fork`/`Go` establish it for the goroutine they start (its loader is fresh) and every execution maintains it -/
+theorem C14_linv_exec (f : Nat) (p : Prog) (g c : Nat) (w : World) (h : Pre g c w) (hl : LInv w) :
+    LInv (exec .now f p g c w).2 := exec_linv f p g c w h hl
+
+/-- … also a top-level `Do` on a goroutine without current context -/
+theorem C14_linv_do (f : Nat) (id : Nat) (p : Prog) (g c : Nat) (w : World) (hi : Inv w) (hg : g < w.nextGid)
+    (hp : g ∉ pendGids w) (hl : LInv w) : LInv (exec .now f (.dodo id p) g c w).2 := by
+  cases f with
+  | zero => exact hl
+  | succ f =>
+    simp only [exec]
+    exact doDo_linv (id := id) (ctch := false) (body := fun cx w1 => exec .now f p g cx w1) hi hg hp hl
+      (fun cx w1 hp1 hl1 => exec_linv f p g cx w1 hp1 hl1)
+
+/-- definitions made by a forked goroutine — and by everything it starts or lets run — are invisible to its parent and to
+    every other context that is not waiting: whatever such a context could `Load` before the child ran it can `Load` after,
+    and nothing more (its chain and all entry tables on it are untouched).  No hypothesis about loaders is left: `LInv`. -/
+theorem C14_parent_loads_unaffected (f : Nat) (w : World) (i : Nat) (t : Task) (hinv : Inv w) (hl : LInv w)
+    (ht : w.pending[i]? = some t) (c : Nat) (hc : c < w.nextCtx) (hnp : c ∉ pendCtxs w) (n : String) :
+    ((runTask .now (exec .now f) t { w with pending := w.pending.eraseIdx i }).ctxs c).loader = (w.ctxs c).loader ∧
+    loadEntry (runTask .now (exec .now f) t { w with pending := w.pending.eraseIdx i }).defs (w.ctxs c).loader n =
+      loadEntry w.defs (w.ctxs c).loader n := by
+  refine ⟨by rw [(C14_child_invisible f w i t hinv ht c hc (Or.inl hnp)).1], ?_⟩
+  apply C14_loads_unaffected
+  intro l hm
+  apply C14_child_defs_invisible f w i t hinv ht l (hl.chainLt c hc l hm)
+  intro t' ht' heq
+  obtain ⟨hd, e, _, p2⟩ := hl.pendHead t' ht'
+  have hne : c ≠ t'.ctx := by
+    intro hct
+    exact hnp (by simp only [pendCtxs, List.mem_map]; exact ⟨t', ht', hct.symm⟩)
+  have : l = hd := by
+    simp only [headOf] at e
+    rw [e] at heq
+    exact Option.some.inj heq
+  rw [this] at hm
+  exact p2 c hc hne hm
+
 /-! ## released -/
 
 /-- after the op — `Do` returned or panicked on a fresh goroutine, every forked goroutine ended — no goroutine-local
@@ -354,6 +418,15 @@ theorem C14s_fork_view {p : Prog} {c : Cfg} (h : Reachable p c) (hn : c ≠ Cfg.
   · have sp := (stepG_spec hh.winv hh.nopend (hh.gok g hg)).spawned n hsp
     rw [hk] at sp
     exact ⟨sp.1, sp.2.2.1, sp.2.2.2.1, (sp.2.1.unst sp.2.2.1).1, sp.2.2.2.2.1, sp.2.2.2.2.2⟩
+
+/-- loader entries, per step (no invariant needed): a micro-step writes an existing loader's entry table only if it is the
+    defining loader of the context of the stepping goroutine's next body frame — definitions go nowhere else -/
+theorem C14s_defs_step (c : Cfg) (i : Nat) (g : GS) (hi : c.gs[i]? = some g) (l : Nat) (hl : l < c.w.nextLoader)
+    (hne : ∀ q cx k, g.k = .run q cx :: k → some l ≠ (c.w.ctxs cx).loader.head?) :
+    (c.step i).w.defs l = c.w.defs l := by
+  have e : (c.step i).w = (stepG g c.w).w := by simp [Cfg.step, hi]
+  rw [e]
+  exact stepG_defs g c.w l hl hne
 
 /-- released: a goroutine that has ended has no goroutine-local table — at every point of every interleaving -/
 theorem C14s_released_goroutine {p : Prog} {c : Cfg} (h : Reachable p c) (g : GS) (hg : g ∈ c.gs) (hd : g.done = true) :
